@@ -1694,90 +1694,149 @@ def run(ctx, anchors=None):
     ctx.floor("R15.23", n23, 2, "vector data() pointers handed to the mem* functions")
 
     # ---- R15.24 a buffer sized by a counting pass holds what the writing pass stores: where a function walks the bytes of a string
-    # parameter twice - a switch that only counts (`escapes++`) feeding `malloc(len + count + 1)`, and a switch that stores through a
-    # moving pointer - every byte value is written with at most 1 + (what the first pass counted for it) bytes.
+    # parameter twice - a pass that only counts (`escapes++` under a switch, an `||` chain or a predicate helper over the byte)
+    # feeding `malloc(len + count + 1)`, and a switch that stores through a moving pointer - every byte value is written with at most
+    # 1 + (what the first pass counted for it) bytes.
     ctx.rule("R15.24", "per byte value, the writing pass stores no more bytes than the sizing pass counted (escape tables agree)")
     n24 = 0
+
+    def _byte_of_param(e):
+        """declaration key of the string parameter if e is `param[index]`"""
+        while e is not None and e.get("k") in ("cast", "paren"):
+            e = e["e"]
+        if e is not None and e.get("k") == "index":
+            b0 = e["base"]
+            while b0 is not None and b0.get("k") == "cast":
+                b0 = b0["e"]
+            if b0 is not None and b0.get("k") == "ref" and b0.get("dk") == "parm":
+                return b0["d"]
+        return None
+
+    def _stores_in(stmts):
+        k_ = 0
+        for st in stmts:
+            for x in walk(st):
+                if x["k"] == "assign" and x["lhs"].get("k") == "un" and x["lhs"].get("op") == "*" and any(y["k"] == "un" and "++" in (y.get("op") or "") for y in walk(x["lhs"])):
+                    k_ += 1
+                elif x["k"] == "assign" and x["lhs"].get("k") == "index" and any(y["k"] == "un" and "++" in (y.get("op") or "") for y in walk(x["lhs"].get("idx") or x["lhs"])):
+                    k_ += 1
+        return k_
+
+    def _incs_in(stmts):
+        out = {}
+        for st in stmts:
+            for x in walk(st):
+                if x["k"] == "un" and "++" in (x.get("op") or "") and x["e"].get("k") == "ref" and x["e"].get("dk") == "local":
+                    out[x["e"]["n"]] = out.get(x["e"]["n"], 0) + 1
+                elif x["k"] == "cassign" and x.get("op") == "+=" and x["lhs"].get("k") == "ref" and astq.const_value(x["rhs"]) is not None:
+                    out[x["lhs"]["n"]] = out.get(x["lhs"]["n"], 0) + astq.const_value(x["rhs"])
+        return out
+
+    def _switch_table(sw, fn):
+        m, d = {}, None
+        for g_ in S.case_groups(sw):
+            if g_.switch is not sw:
+                continue
+            for (_nm, v, _n) in g_.labels:
+                if v == "default":
+                    d = fn(g_.stmts)
+                else:
+                    m[v] = fn(g_.stmts)
+        return m, d
+
+    def _truth_table(g, cond, is_byte, depth=0):
+        """({byte value: 1} for the values the predicate `cond` of the byte holds for, 0 for the rest) or None: an || chain of
+        `byte == constant`, or a call of a one-parameter repository predicate (a switch / || chain over its parameter returning
+        constants)"""
+        while cond is not None and cond.get("k") in ("cast", "paren"):
+            cond = cond["e"]
+        if cond is None:
+            return None
+        if cond.get("k") == "bin" and cond.get("op") == "||":
+            a, b = _truth_table(g, cond["lhs"], is_byte, depth), _truth_table(g, cond["rhs"], is_byte, depth)
+            return None if a is None or b is None else dict(a, **b)
+        if cond.get("k") == "bin" and cond.get("op") == "==":
+            for x, y in ((cond["lhs"], cond["rhs"]), (cond["rhs"], cond["lhs"])):
+                if is_byte(x) and astq.const_value(y) is not None:
+                    return {astq.const_value(y): 1}
+            return None
+        if cond.get("k") == "bin" and cond.get("op") == "!=" and astq.const_value(cond["rhs"]) == 0:
+            return _truth_table(g, cond["lhs"], is_byte, depth)
+        if cond.get("k") == "call" and len(cond.get("args", [])) == 1 and is_byte(cond["args"][0]) and depth < 2:
+            hs = [h for h in (prog.resolve(cond["cid"]) if cond.get("cid") else []) if h.body is not None and len(h.params) == 1]
+            if len(hs) != 1:
+                return None
+            h = hs[0]
+            pd = h.params[0]["d"]
+
+            def is_p(e):
+                while e is not None and e.get("k") in ("cast", "paren"):
+                    e = e["e"]
+                return e is not None and e.get("k") == "ref" and e.get("d") == pd
+            sws_ = [w for w in S.find_switches(h) if is_p(w["cond"])]
+            if len(sws_) == 1:
+                def ret_const(stmts):
+                    for st in stmts:
+                        for x in walk(st):
+                            if x["k"] == "return" and x.get("e") is not None and astq.const_value(x["e"]) is not None:
+                                return astq.const_value(x["e"])
+                    return None
+                m_, d_ = _switch_table(sws_[0], ret_const)
+                if any(v_ is None for v_ in m_.values()) or d_ not in (0, None):
+                    return None
+                return {k_: 1 for k_, v_ in m_.items() if v_}
+            rets = [x for x in h.nodes() if x["k"] == "return" and x.get("e") is not None]
+            if len(rets) == 1:
+                return _truth_table(h, rets[0]["e"], is_p, depth + 1)
+        return None
     for f in sorted(fb.funcs.values(), key=lambda f_: f_.id):
         if f.body is None or not auth(f) or (f.file, f.line, "R15.24") in done21:
             continue
-        sws = []
-        for sw in S.find_switches(f):
-            c0 = sw["cond"]
-            while c0 is not None and c0.get("k") in ("cast", "paren"):
-                c0 = c0["e"]
-            if c0 is not None and c0.get("k") == "index" and c0["base"].get("k") in ("ref", "cast"):
-                b0 = c0["base"]
-                while b0.get("k") == "cast":
-                    b0 = b0["e"]
-                if b0.get("k") == "ref" and b0.get("dk") == "parm":
-                    sws.append((sw, b0["d"]))
-        if len(sws) < 2:
+        wsw = [(sw, _byte_of_param(sw["cond"])) for sw in S.find_switches(f)]
+        wsw = [(sw, d_) for (sw, d_) in wsw if d_ is not None and any(_stores_in(g_.stmts) for g_ in S.case_groups(sw) if g_.switch is sw)]
+        if not wsw:
             continue
         done21.add((f.file, f.line, "R15.24"))
-
-        def stores_in(stmts):
-            k_ = 0
-            for st in stmts:
-                for x in walk(st):
-                    if x["k"] == "assign" and x["lhs"].get("k") == "un" and x["lhs"].get("op") == "*" and any(y["k"] == "un" and y.get("op") in ("++", "p++", "post++") for y in walk(x["lhs"])):
-                        k_ += 1
-                    elif x["k"] == "assign" and x["lhs"].get("k") == "index" and any(y["k"] == "un" and "++" in (y.get("op") or "") for y in walk(x["lhs"].get("idx") or x["lhs"])):
-                        k_ += 1
-            return k_
-
-        def incs_in(stmts):
-            out = {}
-            for st in stmts:
-                for x in walk(st):
-                    if x["k"] == "un" and "++" in (x.get("op") or "") and x["e"].get("k") == "ref" and x["e"].get("dk") == "local":
-                        out[x["e"]["n"]] = out.get(x["e"]["n"], 0) + 1
-                    elif x["k"] == "cassign" and x.get("op") == "+=" and x["lhs"].get("k") == "ref" and astq.const_value(x["rhs"]) is not None:
-                        out[x["lhs"]["n"]] = out.get(x["lhs"]["n"], 0) + astq.const_value(x["rhs"])
-            return out
-        for (swA, dA) in sws:
-            gA = [g_ for g_ in S.case_groups(swA) if g_.switch is swA]
-            if any(stores_in(g_.stmts) for g_ in gA):
+        for (swB, dB) in wsw:
+            def is_byte(e, d_=dB):
+                return _byte_of_param(e) == d_
+            # the sizing pass over the same parameter: a counting switch, or `if (<predicate of the byte>) counter++`
+            sizing = []
+            for sw in S.find_switches(f):
+                if sw is not swB and _byte_of_param(sw["cond"]) == dB and not any(_stores_in(g_.stmts) for g_ in S.case_groups(sw) if g_.switch is sw):
+                    cs = set()
+                    for g_ in S.case_groups(sw):
+                        cs |= set(_incs_in(g_.stmts))
+                    if len(cs) == 1:
+                        cnt = list(cs)[0]
+                        sizing.append((cnt,) + _switch_table(sw, lambda st, c_=cnt: _incs_in(st).get(c_, 0)))
+            for n in f.nodes():
+                if n["k"] == "if" and n.get("else") is None and not S.contains(swB, n):
+                    inc = _incs_in([n["then"]])
+                    if len(inc) == 1 and not _stores_in([n["then"]]):
+                        tt = _truth_table(f, n["cond"], is_byte)
+                        if tt is not None:
+                            cnt = list(inc)[0]
+                            sizing.append((cnt, {k_: inc[cnt] for k_ in tt}, 0))
+            sizing = [z for z in sizing if any(n["k"] == "call" and n.get("n") in ("malloc", "realloc") and n.get("args") and z[0] in astq.estr(n["args"][-1]) for n in f.nodes())]
+            if len(sizing) != 1:
                 continue
-            counters = set()
-            for g_ in gA:
-                counters |= set(incs_in(g_.stmts))
-            mallocs = [n for n in f.nodes() if n["k"] == "call" and n.get("n") in ("malloc", "realloc") and n.get("args") and any(c_ in astq.estr(n["args"][-1]) for c_ in counters)]
-            if len(counters) != 1 or not mallocs:
-                continue
-            cnt = list(counters)[0]
-            for (swB, dB) in sws:
-                if swB is swA or dB != dA:
-                    continue
-                gB = [g_ for g_ in S.case_groups(swB) if g_.switch is swB]
-                if not any(stores_in(g_.stmts) for g_ in gB):
-                    continue
-                n24 += 1
-                ctx.site()
-
-                def per_value(groups, fn):
-                    m, d = {}, None
-                    for g_ in groups:
-                        for (_nm, v, _n) in g_.labels:
-                            if v == "default":
-                                d = fn(g_.stmts)
-                            else:
-                                m[v] = fn(g_.stmts)
-                    return m, d
-                cA, dfA = per_value(gA, lambda st: incs_in(st).get(cnt, 0))
-                wB, dfB = per_value(gB, stores_in)
-                bad24 = []
-                for v in sorted(set(cA) | set(wB), key=str):
-                    counted = cA.get(v, dfA or 0)
-                    written = wB.get(v, dfB if dfB is not None else 0)
-                    if written > 1 + counted:
-                        bad24.append((v, written, 1 + counted))
-                if (dfB or 0) > 1 + (dfA or 0):
-                    bad24.append(("any other byte", dfB, 1 + (dfA or 0)))
-                ctx.inst(not bad24, "R15.24", "sizing-and-writing-agree@" + f.name, f.loc(swB),
-                         "for every byte value the writing switch of %s stores at most 1 + the %s counted by the sizing switch (%d labelled values)" % (f.name, cnt, len(set(cA) | set(wB))),
-                         "%s stores %s byte(s) for the byte value %s but its sizing pass reserved %s: the buffer from %s is overrun by one byte per such character (heap overflow)"
-                         % ((f.name, bad24[0][1], repr(chr(bad24[0][0])) if isinstance(bad24[0][0], int) and 0 <= bad24[0][0] < 128 else bad24[0][0], bad24[0][2], astq.estr(mallocs[0])[:40]) if bad24 else (f.name, "", "", "", "")))
+            cnt, cA, dfA = sizing[0]
+            n24 += 1
+            ctx.site()
+            wB, dfB = _switch_table(swB, _stores_in)
+            bad24 = []
+            for v in sorted(set(cA) | set(wB), key=str):
+                counted = cA.get(v, dfA or 0)
+                written = wB.get(v, dfB if dfB is not None else 0)
+                if written > 1 + counted:
+                    bad24.append((v, written, 1 + counted))
+            if (dfB or 0) > 1 + (dfA or 0):
+                bad24.append(("any other byte", dfB, 1 + (dfA or 0)))
+            ctx.inst(not bad24, "R15.24", "sizing-and-writing-agree@" + f.name, f.loc(swB),
+                     "for every byte value the writing switch of %s stores at most 1 + the %s counted by the sizing pass (%d labelled values)" % (f.name, cnt, len(set(cA) | set(wB))),
+                     "%s stores %s byte(s) for the byte value %s but its sizing pass reserved %s: the buffer sized with `%s` is overrun by one byte per such character (heap overflow)"
+                     % ((f.name, bad24[0][1], repr(chr(bad24[0][0])) if isinstance(bad24[0][0], int) and 0 <= bad24[0][0] < 128 else bad24[0][0], bad24[0][2], cnt) if bad24 else (f.name, "", "", "", "")))
     ctx.floor("R15.24", n24, 1, "functions with a sizing pass and a writing pass over the same string")
 
     # ---- R15.25 an unsigned difference does not wrap: `C.size() - e` with a varying e is evaluated only where e <= C.size() has been
